@@ -486,7 +486,7 @@ func castValue(v Value, target string) Value {
 			return jsonText(x.V)
 		case "bool":
 			if x.V == nil {
-				return nil // PostgreSQL 17+: JSON null casts to SQL NULL
+				return nil // PostgreSQL 18: JSON null casts to SQL NULL (earlier versions raise an error)
 			}
 			b, ok := x.V.(bool)
 			if !ok {
